@@ -43,6 +43,38 @@ SANe(pos, m, L, eff) ==
 
 SAN(pos, m, L) == SANe(pos, m, L, Effect(pos, m))
 
+(***************************************************************************)
+(* The line classifier of the command-line prompt (src/input_handler): a   *)
+(* line is a sequence of one-character strings.  A coordinate pair is      *)
+(* file rank file rank; a notation-shaped line is                          *)
+(*   [NBRQK]? [a-h]? [1-8]? x? [a-h] [1-8] (= [NBRQ])? [+#]?               *)
+(*   or O-O / O-O-O with an optional + or #;                               *)
+(* every SAN string this module produces is notation-shaped (LabelsAreShaped *)
+(* in the self-test), so no legal label may be refused as "invalid input". *)
+(***************************************************************************)
+FileSet == {"a","b","c","d","e","f","g","h"}
+RankSet == {"1","2","3","4","5","6","7","8"}
+IsCoordLine(cs) == Len(cs) = 4 /\ cs[1] \in FileSet /\ cs[2] \in RankSet /\ cs[3] \in FileSet /\ cs[4] \in RankSet
+DropSuffix(cs) == IF Len(cs) > 0 /\ cs[Len(cs)] \in {"+", "#"} THEN SubSeq(cs, 1, Len(cs) - 1) ELSE cs
+DropPromo(cs) == IF Len(cs) > 2 /\ cs[Len(cs) - 1] = "=" /\ cs[Len(cs)] \in {"N","B","R","Q"}
+                 THEN SubSeq(cs, 1, Len(cs) - 2) ELSE cs
+\* the part before the destination square: [NBRQK]? [a-h]? [1-8]? x?  in this order
+RECURSIVE PrefixOk(_, _)
+PrefixOk(cs, stage) ==
+  IF cs = << >> THEN TRUE
+  ELSE LET c == cs[1]  rest == SubSeq(cs, 2, Len(cs)) IN
+       \/ (stage <= 1 /\ c \in {"N","B","R","Q","K"} /\ PrefixOk(rest, 2))
+       \/ (stage <= 2 /\ c \in FileSet /\ PrefixOk(rest, 3))
+       \/ (stage <= 3 /\ c \in RankSet /\ PrefixOk(rest, 4))
+       \/ (stage <= 4 /\ c = "x" /\ rest = << >>)
+IsNotationLine(cs) ==
+  LET core == DropSuffix(cs) IN
+  \/ core = <<"O","-","O">> \/ core = <<"O","-","O","-","O">>
+  \/ LET body == DropPromo(core) IN
+     /\ Len(body) >= 2 /\ body[Len(body) - 1] \in FileSet /\ body[Len(body)] \in RankSet
+     /\ PrefixOk(SubSeq(body, 1, Len(body) - 2), 1)
+ClassifyLine(cs) == IF IsCoordLine(cs) THEN "coordinate" ELSE IF IsNotationLine(cs) THEN "notation" ELSE "invalid"
+
 \* typed coordinate pair: the legal moves it names; a promotion is played as a queen
 CoordMatch(L, f, t) ==
   LET S == { m \in L : m.f = f /\ m.t = t }
